@@ -118,6 +118,46 @@ def _seq(rng, kinds="IRCSY", maxlen=6, allow_nested=True):
     return L([_rect(rng, [rng.randint(0, 3)], leaf) if rng.random() < 0.7 else leaf() for _ in range(rng.randint(1, 4))])
 
 
+def _perturb(rng, c):
+    """A value that differs from c in exactly one small way: an atom wrapped in a one-element list (or the reverse), one number
+    nudged, one element dropped or repeated, a character for its one-character string.  Near misses for Match, Find, Group, Range."""
+    if c[0] != "L" or not c[1]:
+        if c[0] == "I":
+            return rng.choice([I(c[1] + 1), L([c]), R(c[1] + 0.5)])
+        if c[0] == "R":
+            return rng.choice([R(c[1] + 0.25), L([c])])
+        if c[0] == "S" and c[1]:
+            return rng.choice([S(c[1][:-1]), S(c[1] + "a"), L([c])])
+        return L([c])
+    xs = list(c[1])
+    i = rng.randrange(len(xs))
+    r = rng.random()
+    if r < 0.45:
+        xs[i] = _perturb(rng, xs[i])
+    elif r < 0.6 and xs[i][0] == "L" and len(xs[i][1]) == 1:
+        xs[i] = xs[i][1][0]                    # unwrap a one-element list
+    elif r < 0.75:
+        xs[i] = L([xs[i]])                     # wrap an element
+    elif r < 0.85:
+        del xs[i]
+    elif r < 0.95:
+        xs.insert(i, xs[i])
+    else:
+        xs.reverse()
+    return L(xs)
+
+
+def _deep(rng):
+    """A nested list with one-element sub-lists and repeated atoms (where wrapped and bare values meet)."""
+    leaf = _leaf_fn(rng, rng.choice(["I", "I", "IR", "S", "IS"]))
+
+    def node(d):
+        if d == 0 or rng.random() < 0.45:
+            return leaf()
+        return L([node(d - 1) for _ in range(rng.choice([1, 1, 2, 3]))])
+    return L([node(2) for _ in range(rng.randint(1, 4))])
+
+
 def _targeted(op, ar, rng, n):
     """Operands drawn inside the verb's reference domain, for the verbs whose domain the plain universe barely touches."""
     out = []
@@ -132,6 +172,14 @@ def _targeted(op, ar, rng, n):
             elif op == ":#":
                 out.append([rng.choice([I(rng.randint(32, 126)), _rect(rng, [rng.randint(0, 5)], lambda: I(rng.randint(32, 126))),
                                         L([_rect(rng, [rng.randint(0, 3)], lambda: I(rng.randint(32, 126))) for _ in range(rng.randint(1, 3))])])])
+            elif op in ("=", "?") and rng.random() < 0.4:
+                # elements next to their near misses: [x] beside x, 1 beside 1.5, a list beside the same list with one change
+                base = [_deep(rng) if rng.random() < 0.5 else _leaf_fn(rng, "IS")() for _ in range(rng.randint(1, 3))]
+                es = []
+                for b in base:
+                    es += [b, rng.choice([b, _perturb(rng, b)])]
+                rng.shuffle(es)
+                out.append([L(es)])
             elif op in ("<", ">", "=", "?"):
                 out.append([_seq(rng, "IRCS", 7, allow_nested=op in ("=", "?"))])
             elif op in ("_", "-", "%"):
@@ -169,6 +217,16 @@ def _targeted(op, ar, rng, n):
             elif op == ":^":
                 shape = rng.choice([I(rng.randint(0, 9)), L([I(rng.randint(1, 4)) for _ in range(rng.randint(1, 3))]), L([I(-1), I(2)]), L([I(3), I(-1)])])
                 out.append([shape, rng.choice([_seq(rng, allow_nested=False), _leaf_fn(rng, "IRCY")(), _seq(rng)])])
+            elif op == "?" and rng.random() < 0.35:
+                base = [_deep(rng) if rng.random() < 0.6 else _leaf_fn(rng, "IS")() for _ in range(rng.randint(1, 3))]
+                es = []
+                for b in base:
+                    es += [b, _perturb(rng, b)]
+                rng.shuffle(es)
+                out.append([L(es), rng.choice(es) if rng.random() < 0.7 else _perturb(rng, rng.choice(es))])
+            elif op == "~" and rng.random() < 0.5:
+                a = _deep(rng) if rng.random() < 0.7 else _seq(rng)
+                out.append([a, rng.choice([a, _perturb(rng, a), _perturb(rng, a)])])
             elif op == "?":
                 a = _seq(rng)
                 es = V.elems(a) if a[1] else []
